@@ -53,24 +53,16 @@ SigF26(pre, cx1, ev, res, post, cx2, pred) ==
          sub == P!PSeqToSet(P!ODfs(post, res.v)) IN
      m # 0 /\ \E a, b \in cx2.truth[m] : a[1] = b[1] /\ a[2] # b[2] /\ a[2] \in sub /\ b[2] \notin sub
 
-\* F28: merging a file whose siblings (of different kinds, or in a different order) interleave with the model's can import
-\* an element that the model already has: afterwards two elements have the same path
-SigF28(pre, cx1, ev, res, post, cx2, pred) ==
-  /\ ev.op = "Load" /\ res.t = "ok"
-  /\ pre.models[ev.m].files # <<>>
-  /\ \E a, b \in cx2.truth[ev.m] : a[1] = b[1] /\ a[2] # b[2] /\ (a[2] > Len(pre.n) \/ b[2] > Len(pre.n))
-
 \* F29: duplicate() of a model whose files have different versions copies everything with the oldest version
 SigF29(pre, cx1, ev, res, post, cx2, pred) ==
   /\ ev.op = "Duplicate" /\ res.t = "ok"
   /\ \E i, j \in 1..Len(pre.models[ev.m].files) : pre.f[pre.models[ev.m].files[i]].ver # pre.f[pre.models[ev.m].files[j]].ver
 
 KFMatch(pre, cx1, ev, res, post, cx2, pred) ==
-  {id \in {"F7", "F21", "F22", "F26", "F28", "F29"} :
+  {id \in {"F7", "F21", "F22", "F26", "F29"} :
      CASE id = "F7" -> SigF7(pre, cx1, ev, res, post, cx2, pred)
        [] id = "F21" -> SigF21(pre, cx1, ev, res, post, cx2, pred)
        [] id = "F22" -> SigF22(pre, cx1, ev, res, post, cx2, pred)
        [] id = "F26" -> SigF26(pre, cx1, ev, res, post, cx2, pred)
-       [] id = "F28" -> SigF28(pre, cx1, ev, res, post, cx2, pred)
        [] id = "F29" -> SigF29(pre, cx1, ev, res, post, cx2, pred)}
 =============================================================================
